@@ -16,7 +16,7 @@ RULE = ("exhaustive walk of the decoder's own decision tree (a node is expanded 
         "and of arbitrary bytes under every encoding and mode, each also through the real find_key closure of "
         "Input._send, and again cut into 2-3 pieces handed over by consecutive unget_bytes() calls with and without send(0) "
         "in between; the other spellings of the three codecs (aliases, case/underscore variants, ANSI_X3.4-1968) on every "
-        "single byte and the children of waiting bytes; 9 sequences longer than MAX_KEYPRESS_SIZE (representation level); bursts handed over in 2-3 chunks by short reads (chunk boundary at every position inside every non-prefix "
+        "single byte and the children of waiting bytes; 9 sequences longer than MAX_KEYPRESS_SIZE (representation level); bursts above the paste threshold ending in each key that is also a prefix of longer sequences; bursts handed over in 2-3 chunks by short reads (chunk boundary at every position inside every non-prefix "
         "table sequence / 5 multi-byte characters); single bursts longer than READ_SIZE through the real "
         "Input object (default paste threshold) with every multi-byte table sequence that is not a prefix and 7 "
         "multi-byte characters at every alignment across offsets READ_SIZE and 2*READ_SIZE. non-trivial = distinct (operation, encoding, mode, full, bytes) with at least 2 bytes or a "
@@ -465,6 +465,27 @@ def chunk_items(ctx):
     return items
 
 
+def oracle_ends_in_prefix_key(a):
+    """a burst above the paste threshold whose LAST key is also the beginning of longer sequences (or, under utf-8, a
+    Meta byte that is also a lead byte), nothing more arriving: the buffer is exhausted, so it is reported under its name"""
+    enc, u, pt = a
+    exp = [chr(c) for c in FILL] + [ev.CURTSIES_NAMES[u]]
+    got = kc.burst_through_input(FILL + u, enc, pt)
+    if got != exp:
+        return "paste_threshold=%s: burst %s: %s" % (pt, hx(FILL + u), first_diff(got, exp))
+    return None
+
+
+def ends_in_prefix_items():
+    out = []
+    for enc in ENCS:
+        us = [u for u in TABLE_KEYS if kc.is_table_prefix(u) and u in ev.CURTSIES_NAMES]
+        if enc == "utf8":
+            us += [bytes([b]) for b in range(0x80, 0x100) if bytes([b]) in ev.CURTSIES_NAMES]
+        out += [(enc, u, pt) for u in us for pt in ("default", None)]
+    return out
+
+
 def burst_items(ctx):
     import curtsies.input as cinput
     R = cinput.READ_SIZE
@@ -815,6 +836,15 @@ def check(ctx, search=False):
             ctx.violation("a recognised sequence / character arriving in one burst that the OS hands over in chunks is " + w, case, None)
     ctx.exhaustive.append("bursts handed over in 2-3 chunks (each os.read returns one chunk, first chunk above the paste threshold "
                           "and shorter than READ_SIZE), chunk boundary at every position inside the unit: %d" % len(items))
+    # ---- bursts ENDING in a key that is also a prefix of longer sequences (buffer exhausted inside a paste) -----------
+    items = ends_in_prefix_items()
+    for it, w in zip(items, kc.par_map(oracle_ends_in_prefix_key, items, procs, chunksize=20)):
+        case = ("burst-end", it[0], "None" if it[2] is None else it[2], hx(it[1]))
+        ctx.count(case, nontrivial=True, tag="burst-ending-in-prefix-key")
+        if w:
+            ctx.violation("a recognised sequence that ends the burst is not reported under its name: " + w, case, None)
+    ctx.exhaustive.append("bursts above the paste threshold ending in every table key that is also a proper prefix of another "
+                          "(utf-8: and every one-byte 8-bit key), default threshold and None: %d" % len(items))
     # ---- D12 witness replayed on the real code --------------------------------------------------------------
     for enc in ("utf8", "ascii"):
         try:
@@ -845,6 +875,9 @@ def replay(payload):
         op, fam, alias, mode, full, h = c
         base = op.split("-")[0]
         return dict(case=c, under_alias=impl((base, alias, mode, full, h)), under_canonical_name=impl((base, fam, mode, full, h)))
+    if c[0] == "burst-end":
+        _, enc, pt, h = c
+        return dict(case=c, oracle=oracle_ends_in_prefix_key((enc, unhx(h), None if pt == "None" else pt)))
     if c[0] == "chunks":
         _, enc, h, cuts = c
         return dict(case=c, oracle=oracle_chunks((enc, unhx(h), tuple(cuts))))
